@@ -262,11 +262,42 @@ func main() {
 			c.Count("mc.c2f.comparisons_with_ratio_8_to_20", 1)
 		}
 		p := []int{1, 3, 8, 16, 70, 150}[rng.Intn(6)]
-		wit := map[string]interface{}{"solid": s.Desc, "big": big, "small": small, "iters": iters, "gomaxprocs": p}
+		extra := 0.0
+		if c.Index%3 == 2 {
+			// a detail that falls through the coarse lattice, recovered with the documented extraSpace
+			// argument: a ball plus a bead of radius < big/2 placed between coarse lattice points, a
+			// few coarse cells away from the ball; extraSpace reaches from the ball to beyond the bead
+			small = 0.04 + 0.02*rng.Float64()
+			big = small * float64(4+rng.Intn(3))
+			ball := vlib.SphereSolid(model3d.XYZ(0, 0, 0), big*4.3)
+			gap := big * (4 + 2*rng.Float64())
+			br := big * (0.25 + 0.15*rng.Float64())
+			bc := model3d.XYZ(big*4.3+gap, 0.37*big, -0.21*big)
+			bead := vlib.SphereSolid(bc, br)
+			s = vlib.UnionSolid(ball, bead)
+			xs, ys, zs := model3d.VerifMarchingLattice(s, big)
+			seen := false
+			for _, x := range xs {
+				for _, y := range ys {
+					for _, z := range zs {
+						if bead.Contains(model3d.XYZ(x, y, z)) {
+							seen = true
+						}
+					}
+				}
+			}
+			if seen {
+				c.Undecided("c2f.bead-seen-by-the-coarse-lattice")
+				return
+			}
+			extra = gap + 2*br + big
+			c.Count("mc.c2f.comparisons_with_extra_space", 1)
+		}
+		wit := map[string]interface{}{"solid": s.Desc, "big": big, "small": small, "iters": iters, "gomaxprocs": p, "extra_space": extra}
 		var ref, got []vlib.Tri
 		withProcs(1, func() { ref = vlib.CanonTris(vlib.Tris(model3d.MarchingCubesSearch(s, small, iters))) })
 		hs, tr := traced(s, small, c.SubSeed)
-		withProcs(p, func() { got = vlib.CanonTris(vlib.Tris(model3d.MarchingCubesC2F(hs, big, small, 0, iters))) })
+		withProcs(p, func() { got = vlib.CanonTris(vlib.Tris(model3d.MarchingCubesC2F(hs, big, small, extra, iters))) })
 		tr.finish(c)
 		c.Count("mc.c2f.comparisons", 1)
 		diff(c, "model3d.MarchingCubesC2F/equals-direct-meshing", "coarse-to-fine vs direct", ref, got, wit)
